@@ -51,7 +51,21 @@ func isStructPtr(t types.Type) (*types.Named, bool) {
 	return nil, false
 }
 
+const dsKeyPath = "github.com/ipfs/go-datastore.Key"
+
+// isOpaqueValueStruct: struct types modelled as opaque immutable values of their own sort.
+func isOpaqueValueStruct(t types.Type) bool {
+	switch namedPath(t) {
+	case "time.Time", dsKeyPath:
+		return true
+	}
+	return false
+}
+
 func isStructVal(t types.Type) (*types.Named, bool) {
+	if isOpaqueValueStruct(t) {
+		return nil, false
+	}
 	if n, ok := unalias(t).(*types.Named); ok {
 		if _, ok := n.Underlying().(*types.Struct); ok {
 			return n, true
@@ -66,6 +80,8 @@ func sortOf(t types.Type) string {
 	switch namedPath(t) {
 	case "time.Time", "time.Duration":
 		return SInt
+	case dsKeyPath:
+		return SKey
 	}
 	if isErrorType(t) {
 		return SErr
